@@ -11,6 +11,8 @@ import (
 	"vh/ref/sec"
 )
 
+var c05Record = tglib.GetAuthSubscription("", "", "")
+
 // C05 — RES* and the NAS key hierarchy installed by DeriveRESstarAndSetKey equal what the network derives
 // (independent Milenage + TS 33.501 Annex A chain in ref/sec); OP-only gives the same as OPc-only.
 func init() {
@@ -106,9 +108,21 @@ func runC05(c *fw.Case) (o fw.Outcome) {
 	for vi, variant := range []struct{ name, opc, op string }{{"OP+OPc", opcS, opS}, {"OPc only", opcS, ""}, {"OP only", "", opS}} {
 		ue := tglib.NewRanUeContext("imsi-"+supi, 1, cAlg, iAlg)
 		ue.AuthenticationSubs = tglib.GetAuthSubscription(kS, variant.opc, variant.op)
+		if c.Idx%4 == 2 {
+			// a provisioning loop's way: ONE subscription record for the whole process, its fields overwritten per subscriber.
+			// The result must depend on what the record holds now, and the derivation must not write into it.
+			c05Record.PermanentKey.PermanentKeyValue, c05Record.Opc.OpcValue, c05Record.Milenage.Op.OpValue = kS, variant.opc, variant.op
+			ue.AuthenticationSubs = c05Record
+			o.Tag("subscription-record-reused")
+		}
+		subsWas := fmt.Sprintf("%+v %+v %+v %+v", ue.AuthenticationSubs, *ue.AuthenticationSubs.PermanentKey, *ue.AuthenticationSubs.Opc, *ue.AuthenticationSubs.Milenage.Op)
 		rview, rdmg := guarded(r, rnd)
 		gotRes := ue.DeriveRESstarAndSetKey(ue.AuthenticationSubs, autnA, rview, snName, mnc, mcc)
 		o.Count("derivations", 1)
+		if now := fmt.Sprintf("%+v %+v %+v %+v", ue.AuthenticationSubs, *ue.AuthenticationSubs.PermanentKey, *ue.AuthenticationSubs.Opc, *ue.AuthenticationSubs.Milenage.Op); now != subsWas {
+			o.Fail("subscription-written", "DeriveRESstarAndSetKey (%s) changed the caller's subscription data:\n before %s\n after  %s", variant.name, subsWas, now)
+			return
+		}
 		if d := rdmg(false); d != "" {
 			o.Fail("rand-buffer-written", "DeriveRESstarAndSetKey (%s): %s", variant.name, d)
 			return
